@@ -696,6 +696,47 @@ func (env *Env) elabCall(x *SCall) Term {
 		}
 		vc.decl("allocated0", "(declare-fun allocated0 (Int) Bool)")
 		return boolTerm(fmt.Sprintf("(and (not (= %s 0)) (not (allocated0 %s)))", r, r))
+	case "observe":
+		// observe(Method, recv, args...): value returned by the pure observer recv.Method(args...)
+		if len(x.Args) < 2 {
+			efail("observe(Method, recv, args...)")
+		}
+		mid, ok := x.Args[0].(*SIdent)
+		if !ok {
+			efail("observe: first argument must be a method name")
+		}
+		recv := env.elab(x.Args[1])
+		if recv.T == nil {
+			efail("observe: receiver without Go type")
+		}
+		obj, _, _ := types.LookupFieldOrMethod(recv.T, true, env.pkg, mid.Name)
+		fn, ok := obj.(*types.Func)
+		if !ok {
+			if n, ok2 := derefNamed(recv.T); ok2 && n.Obj().Pkg() != nil {
+				obj, _, _ = types.LookupFieldOrMethod(recv.T, true, n.Obj().Pkg(), mid.Name)
+				fn, ok = obj.(*types.Func)
+			}
+			if !ok {
+				efail("observe: no method %s on %s", mid.Name, recv.T)
+			}
+		}
+		sig := fn.Type().(*types.Signature)
+		if sig.Results().Len() != 1 {
+			efail("observe: method %s must have exactly one result", mid.Name)
+		}
+		rt := sig.Results().At(0).Type()
+		rs := vc.sortOf(rt)
+		argTerms := []string{recv.S, vc.versionOf(recv.S)}
+		sorts := []string{"Int", "Int"}
+		for _, ax := range x.Args[2:] {
+			a := env.elab(ax)
+			argTerms = append(argTerms, a.S)
+			sorts = append(sorts, a.Sort)
+		}
+		fname := fmt.Sprintf("obs$%s$0", mangle(mid.Name))
+		vc.decl(fname, fmt.Sprintf("(declare-fun %s (%s) %s)", fname, strings.Join(sorts, " "), rs))
+		t := Term{S: fmt.Sprintf("(%s %s)", fname, strings.Join(argTerms, " ")), Sort: rs, T: rt}
+		return t
 	case "iserr":
 		// iserr(e, Sentinel): errors.Is approximation
 		a, b := env.elab(x.Args[0]), env.elab(x.Args[1])
@@ -884,4 +925,15 @@ func (vc *FnVC) globalIsErr(name string) bool {
 		}
 	}
 	return false
+}
+
+func derefNamed(t types.Type) (*types.Named, bool) {
+	if p, ok := t.Underlying().(*types.Pointer); ok {
+		t = p.Elem()
+	}
+	if p, ok := t.(*types.Pointer); ok {
+		t = p.Elem()
+	}
+	n, ok := t.(*types.Named)
+	return n, ok
 }
